@@ -15,10 +15,12 @@ def hx(s):
 class Mirror:
     def __init__(self, lp=None):
         self.cols = []   # names
+        self.bnds = []   # [lo, up] per column (only to keep lower <= upper in generated bound changes)
         self.rows = []   # [name, sense]
         self.auto = 0
         if lp is not None:
             self.cols = ["x%d" % j for j in range(len(lp.cols))]
+            self.bnds = [[c[1], c[2]] for c in lp.cols]
             self.rows = [["c%d" % i, r[0]] for i, r in enumerate(lp.rows)]
 
     def gen_name(self, pref, taken, count):
@@ -39,6 +41,28 @@ def rnd_val(rng, nonzero=False):
         v = rng.rat()
         if v != 0 or not nonzero:
             return v
+
+
+def _num(b, default):
+    return default if b in (INF, NINF) else F(b)
+
+
+def fit_bound(bnd, lu, v):
+    """keep lower <= upper (well-formed problems only); updates bnd in place"""
+    lo, up = bnd
+    if lu == "L":
+        if v != NINF and up != INF and F(v) > F(up):
+            v = up
+        bnd[0] = v
+    elif lu == "U":
+        if v != INF and lo != NINF and F(v) < F(lo):
+            v = lo
+        bnd[1] = v
+    else:
+        if v in (INF, NINF):
+            v = F(0)
+        bnd[0] = bnd[1] = v
+    return v
 
 
 def rnd_bounds(rng):
@@ -86,6 +110,7 @@ def gen_op(rng, m, slot=0, p_invalid=0.0, weights=None, allow_names=True):
                 line += " %d" % len(ent) + "".join(" %d %s" % (i, q2s(v)) for i, v in ent)
             if valid:
                 m.cols.append(name if name is not None else m.gen_name("x", m.cols, nc))
+                m.bnds.append([lo, up])
             return line, valid, k
         if k in ("addrow", "addrrow", "newrow"):
             name = None
@@ -174,6 +199,7 @@ def gen_op(rng, m, slot=0, p_invalid=0.0, weights=None, allow_names=True):
             valid = not inv
             if valid:
                 m.cols = [c for j, c in enumerate(m.cols) if j not in idx]
+                m.bnds = [c for j, c in enumerate(m.bnds) if j not in idx]
             return line, valid, k
         if k == "chgcoef":
             if (nr == 0 or nc == 0) and not inv:
@@ -197,12 +223,16 @@ def gen_op(rng, m, slot=0, p_invalid=0.0, weights=None, allow_names=True):
             if inv and rng.chance(0.3) and nc:
                 j, lu, ok = rng.below(nc), rng.choice("XlZ"), False
             v = rng.choice([rnd_val(rng), rnd_val(rng), INF if lu == "U" else NINF if lu == "L" else rnd_val(rng)])
+            if ok:
+                v = fit_bound(m.bnds[j], lu, v)
             return "chgbound %d %d %s %s" % (slot, j, lu, q2s(v)), ok, k
         if k == "chgbounds":
             if nc == 0:
                 continue
             n = rng.rint(1, 3)
             items = [(rng.below(nc), rng.choice("LUB"), rnd_val(rng)) for _ in range(n)]
+            if not inv:
+                items = [(j, lu, fit_bound(m.bnds[j], lu, v)) for j, lu, v in items]
             if inv:
                 items.insert(rng.below(len(items) + 1), (bad_index(rng, nc, nr), "L", F(0)))
             return "chgbounds %d %d %s" % (slot, len(items), " ".join("%d %s %s" % (j, lu, q2s(v)) for j, lu, v in items)), not inv, k
